@@ -13,6 +13,7 @@ from ..core import (
 )
 from ..cfg import cfg_of
 from .. import order as O
+from .. import dataflow as DF
 from . import shared
 
 EXPLANATION = (
@@ -41,8 +42,9 @@ def run(prog, rep, tier):
     r5_4(prog, rep)
     r5_5(prog, rep)
     n = shared.ownership_rule(prog, rep, "R5.6", which=("GroupSpecificTerm",))
-    if n < 7:
-        raise AnalysisError(f"R5.6: only {n} GroupSpecificTerm(...) constructor sites found (floor 7)")
+    if n < 5:
+        raise AnalysisError(f"R5.6: only {n} GroupSpecificTerm(...) constructor sites found (floor 5)")
+    shared.dtype_narrowing(prog, rep, "R5.7")
     rep.floor("R5.1", 7)
     rep.floor("R5.2", 4)
     rep.floor("R5.3", 6)
@@ -58,6 +60,21 @@ def r5_1(prog, rep):
         args = [unparse(a) for a in kr[0].args]
         # the product is transposed back
         parent_T = any(isinstance(n, ast.Attribute) and n.attr == "T" and n.value is kr[0] for n in ast.walk(f.node))
+        # what reaches the product: only the matrices of the factor / the effect (reshaped to 2-D; plus the new-group column at prediction)
+        fr = DF.Freshness(f)
+        at = fr.cfg.node_of(kr[0])
+        allowed = {
+            "Ji": {"Xi, Ji = (self.expr.data, self.factor.data)", "Ji = Ji[:, np.newaxis]", f"Ji = self.factor.eval_new_data({f.params[1]})",
+                   "Ji = np.column_stack([Ji, np.zeros((Ji.shape[0], 1), dtype='int')])"},
+            "Xi": {"Xi, Ji = (self.expr.data, self.factor.data)", "Xi = Xi[:, np.newaxis]", f"Xi = self.expr.eval_new_data({f.params[1]})"},
+        }
+        for var in ("Ji", "Xi"):
+            defs = fr.IN.get(at, {}).get(var, frozenset())
+            texts = sorted(unparse(fr.cfg.ast[d_]) if d_ != "param" else "param" for d_ in defs)
+            foreign = [t_ for t_ in texts if t_ not in allowed[var]]
+            obl(rep, f, kr[0], "R5.1", bool(defs) and not foreign,
+                f"{f.name}: `{var}` reaching the product is the {'factor indicator' if var == 'Ji' else 'effect'} matrix itself (only reshaped)", str(texts),
+                f"`{var}` is re-computed before the product by {foreign}: the block is no longer indicators(factor) x effect columns in the order of the labels")
         obl(rep, f, kr[0], "R5.1", args == ["Ji.T", "Xi.T"] and parent_T,
             f"{f.name}: Z = khatri_rao(Ji.T, Xi.T).T - group index major, effect column minor", str(args),
             f"{f.name} builds khatri_rao({', '.join(args)}): the slot order (group slowest, effect fastest) is transposed relative to the labels")
